@@ -24,6 +24,8 @@ METHOD_SETS = {
     "leaf-class-only": ["VLeaf"],
     "inner-only": ["VMany", "VMixed", "VReq"],
     "none": [],
+    "root-class-only": ["ASTNode"],
+    "sub-leaf-and-leaf": ["VSubLeaf", "VLeaf"],
 }
 
 
@@ -286,6 +288,14 @@ def spec(tier: str, seed: int) -> Spec:
     chunk = 8
     fams = [Family(f"dense[{k}:{k + chunk}]", make_harness(dense[k : k + chunk], ["own-classes", "base-class-only", "none"]), variables=var) for k in range(0, len(dense), chunk)]
     fams += [Family(f"sparse[{k}:{k + chunk}]", make_harness(sparse[k : k + chunk], ["leaf-class-only", "inner-only"]), variables=var) for k in range(0, len(sparse), chunk)]
+    # node classes whose MRO interleaves plain (non-node) mixins with node classes
+    mixed = [number(x) for x in (
+        R("VMany", items=(R("VMixLeaf"), R("VLeaf"), R("VLateMix"))),
+        R("VReq", child=R("VMixLeaf")),
+        R("VMixed", first=R("VDiamond"), items=(R("VMixLeaf"),), one=R("VMixLeaf")),
+        R("VMany", items=(R("VDiamond"), R("VReq", child=R("VLateMix")))),
+    )]
+    fams.append(Family("mixin-in-mro", make_harness(mixed, ["base-class-only", "leaf-class-only", "root-class-only", "sub-leaf-and-leaf", "own-classes"]), variables=var + "; classes with a non-node mixin before / after the node base, and a diamond"))
     return Spec(
         families=fams,
         functions=FUNCTIONS,
